@@ -1237,6 +1237,24 @@ MUTANTS = [
 ]
 
 MUTANTS += [
+    dict(name='c04-seed4-state-copied-before-registration-without-grandparent', prop='C04', clause='D4', edits=[
+        (TGC_CPP, """    } else {
+        register_with(ctx, td); // Issues full fence
+        // As we do not have grand-ancestors, concurrent state propagation (if any)
+        // may originate only from the parent context, and thus it is safe to directly
+        // copy the state from it.
+        // Only ever raise the state: a cancellation requested for this context before its first use must survive binding.
+        if (std::uint32_t parent_state = ctx.my_parent->my_cancellation_requested.load(std::memory_order_relaxed)) {
+            ctx.my_cancellation_requested.store(parent_state, std::memory_order_relaxed);
+        }
+    }
+}""", """    } else {
+        if (std::uint32_t parent_state = ctx.my_parent->my_cancellation_requested.load(std::memory_order_relaxed)) {
+            ctx.my_cancellation_requested.store(parent_state, std::memory_order_relaxed);
+        }
+        register_with(ctx, td); // Issues full fence
+    }
+}""")]),
     dict(name='c20-cancelled-resume-task-is-dropped', prop='C20', clause='D5', edits=[('src/tbb/scheduler_common.h',
         "            return execute(ed);\n        }\n    } m_resume_task;", "            suppress_unused_warning(ed);\n            return nullptr;\n        }\n    } m_resume_task;")]),
     dict(name='c20-seed3-critical-resume-not-advertised', prop='C20', clause='D2', edits=[('src/tbb/task.cpp', """        if (task_disp.m_properties.critical_task_allowed) {
@@ -1356,6 +1374,30 @@ BENIGN = [
         }
         void handle_operations(join_node_base_operation* op_list) {
             join_node_base_operation *current;""")]),
+    dict(name='c04-b-state-copy-in-a-helper-lambda', prop='C04', edits=[
+        (TGC_CPP, "    if (ctx.my_parent->my_parent) {\n        // Even if this context were made accessible for state change propagation",
+         "    auto inherit_parent_state = [&ctx] {\n        if (std::uint32_t parent_state = ctx.my_parent->my_cancellation_requested.load(std::memory_order_relaxed)) {\n            ctx.my_cancellation_requested.store(parent_state, std::memory_order_relaxed);\n        }\n    };\n    if (ctx.my_parent->my_parent) {\n        // Even if this context were made accessible for state change propagation"),
+        (TGC_CPP, """        if (std::uint32_t parent_state = ctx.my_parent->my_cancellation_requested.load(std::memory_order_relaxed)) {
+            ctx.my_cancellation_requested.store(parent_state, std::memory_order_relaxed);
+        }
+        register_with(ctx, td); // Issues full fence
+""", """        inherit_parent_state();
+        register_with(ctx, td); // Issues full fence
+"""),
+        (TGC_CPP, """            if (std::uint32_t parent_state = ctx.my_parent->my_cancellation_requested.load(std::memory_order_relaxed)) {
+                ctx.my_cancellation_requested.store(parent_state, std::memory_order_relaxed);
+            }
+        }
+    } else {""", """            inherit_parent_state();
+        }
+    } else {"""),
+        (TGC_CPP, """        if (std::uint32_t parent_state = ctx.my_parent->my_cancellation_requested.load(std::memory_order_relaxed)) {
+            ctx.my_cancellation_requested.store(parent_state, std::memory_order_relaxed);
+        }
+    }
+}""", """        inherit_parent_state();
+    }
+}""")]),
     dict(name='c05-b-ratio-operands-commuted', prop='C05', edits=[('include/oneapi/tbb/blocked_range2d.h',
         "        if ( my_rows.size()*double(my_cols.grainsize()) < my_cols.size()*double(my_rows.grainsize()) ) {",
         "        if ( double(my_cols.grainsize())*my_rows.size() < double(my_rows.grainsize())*my_cols.size() ) {")]),
